@@ -310,6 +310,35 @@ def main(ctx):
               for entry in ("histogram", "binner")]
     ctx.lattice("typed-parameters", tunits, one_typed, bounds=dict(binning=[repr(t) for t in TB], limits=[repr(t) for t in TL]))
 
+    # every bin count 1..64 (nbin) and a ladder of bin sizes on a handful of ranges: whether the maximum (and every datum
+    # that sits on an edge) lands in the last bin or beyond it is decided by the rounding of (x-min)/((max-min)/nbin), a
+    # coincidence of the particular (range, nbin) pair - about one pair in ten has the quotient rounded below nbin
+    SWEEP_DATA = [tuple(float(v) for v in range(-10, 0)), tuple(float(v) for v in range(0, 10)), (0.1, 0.7, 0.3, 1.9, 1.1, 0.5, 1.3),
+                  (-3.5, 2.25, 0.0, 7.75, 7.75, -3.5, 1.0), (100.0, 100.3, 100.7, 101.9, 103.3), (1e-3, 5e-3, 9e-3, 7e-3), (0, 3, 7, 10, 4, 9)]
+
+    def expand_sweep(u):
+        di, mn, mx = u
+        data = SWEEP_DATA[di]
+        dt = "i8" if all(isinstance(v, int) for v in data) else "f8"
+        for nb in range(1, 65):
+            for entry in ("histogram", "binner"):
+                yield (dt, data, "nbin", nb, mn, mx, entry)
+        span = max(data) - min(data)
+        for k in (1, 2, 3, 4, 6, 7, 9, 10, 11, 13):
+            yield (dt, data, "binsize", span / k, mn, mx, "histogram")
+
+    swunits = [(di, mn, mx) for di in range(len(SWEEP_DATA)) for (mn, mx) in ((None, None), ("dmin", None), (None, "dmax"))]
+
+    def one_sweep(case, rec):
+        dt, data, bkind, bval, mn, mx, entry = case
+        mn = min(data) if mn == "dmin" else mn
+        mx = max(data) if mx == "dmax" else mx
+        return one((dt, data, bkind, bval, mn, mx, entry), rec)
+
+    ctx.lattice("bin-count-sweep", swunits, one_sweep, expand=expand_sweep,
+                bounds=dict(data=[list(d) for d in SWEEP_DATA], nbin="1..64", binsize="span/k for k in 1,2,3,4,6,7,9,10,11,13",
+                            limits=["none", "min=data minimum", "max=data maximum"]))
+
     # long arrays: every 2-symbol pattern of length 12 (thorough) / 8 (quick)
     LL = ctx.pick(8, 12)
     pairs = [(0.0, 1.0), (0.5, 3.7), (-1.0, 0.30000000000000004), (1.0, 1.0)]
